@@ -62,7 +62,11 @@ def main():
                     "demo_exit_on_clean_tree": conf.get("demo_clean_rc"), "demo_exit_with_patch": conf.get("demo_patched_rc"),
                     "demo_tail_with_patch": (conf.get("demo_patched_tail") or "")[-300:],
                     "test_suite_with_patch": conf.get("tests_summary"),
+                    **({"equivalence_script_record_exit_on_clean_tree": conf.get("equiv_record_rc"), "equivalence_script_compare_exit_with_patch": conf.get("equiv_compare_rc"),
+                        "test_suite_note": "full suite run by the authoring sub-agent with the patch applied (676 passed + the pre-existing failure); my confirmation re-ran its equivalence script"}
+                       if kind == "harmless" else {}),
                 },
+                **({"every_check_run": True, "false_alarms": (ev or {}).get("false_alarms"), "not_decided": (ev or {}).get("not_decided")} if kind == "harmless" else {}),
                 "checks_run": [{k: c.get(k) for k in ("property", "exit", "violations", "confirmed_natively", "first", "summary", "wall_s")} for c in checks],
                 "caught_by": caught,
             }
